@@ -28,7 +28,9 @@ fn grids(tier: Tier) -> Vec<(u32, u32, u32)> {
 }
 
 fn tile_chains() -> Vec<Vec<usize>> {
-    vec![vec![4], vec![8], vec![8, 4], vec![4, 2], vec![8, 4, 2], vec![16, 8], vec![16, 4]]
+    // incl. chains whose root tile is not a power of two (tile sizes need only be
+    // descending and divisible)
+    vec![vec![4], vec![8], vec![8, 4], vec![4, 2], vec![8, 4, 2], vec![16, 8], vec![16, 4], vec![12, 4], vec![6, 3], vec![5], vec![9, 3]]
 }
 
 fn transforms() -> Vec<(&'static str, Matrix4<f32>)> {
@@ -274,7 +276,7 @@ impl Check for C07 {
     }
     fn meta(&self, tier: Tier) -> Meta {
         Meta {
-            rule: "case = one voxel render; full Cartesian product of 9 shapes (sphere, box, two slabs with a gap (occlusion), slab with a hole, tilted half-space, small sphere above a plate, empty, full, sphere with a free radius) x voxel grids with width != height != depth incl. non-multiples of every tile size x 7 tile-size chains x 6 view transforms (identity, scale, z translation, 90-degree rotation about x, general rotation+scale, camera perspective with bottom row (0,0,0.3,1)) x thread pool / none x VM / JIT; oracle: brute force over the whole column (f64 evaluation of the same program at cfg.mat()*(i,j,k,1)): depth = 1 + highest k < D with a decidably negative value, 0 if none, and D when that is >= D-1 (the implementation's documented clamp; counted separately); columns negative within the top root tile beyond the grid, or with an undecidable voxel at or above the surface, are skipped (counted); the normal of an unclamped surface pixel must match the f64 dual-number gradient of shape o transform at voxel (i,j,depth-1): direction and magnitude within 1e-3".into(),
+            rule: "case = one voxel render; full Cartesian product of 9 shapes (sphere, box, two slabs with a gap (occlusion), slab with a hole, tilted half-space, small sphere above a plate, empty, full, sphere with a free radius) x voxel grids with width != height != depth incl. non-multiples of every tile size x 11 tile-size chains (4 with a root that is not a power of two) x 6 view transforms (identity, scale, z translation, 90-degree rotation about x, general rotation+scale, camera perspective with bottom row (0,0,0.3,1)) x thread pool / none x VM / JIT; oracle: brute force over the whole column (f64 evaluation of the same program at cfg.mat()*(i,j,k,1)): depth = 1 + highest k < D with a decidably negative value, 0 if none, and D when that is >= D-1 (the implementation's documented clamp; counted separately); columns negative within the top root tile beyond the grid, or with an undecidable voxel at or above the surface, are skipped (counted); the normal of an unclamped surface pixel must match the f64 dual-number gradient of shape o transform at voxel (i,j,depth-1): direction and magnitude within 1e-3".into(),
             bounds: match tier {
                 Tier::Quick => "5 grids up to 17 voxels per axis".into(),
                 Tier::Thorough => "13 grids up to 17 voxels per axis".into(),
